@@ -179,6 +179,7 @@ def check(ctx):
                                 f"but {wq.rsplit('.', 2)[-2]}.{wq.rsplit('.', 1)[-1]} does not set the event on every path: a caller "
                                 f"blocked there is never woken when the connection ends this way"), key=f"wake:{what}")
     ctx.floor("untimed_event_waits", n_wait, 1)
+    wake_recheck(ctx, repo, R, fk, funcs, flows)
 
     # ---- 3 loop exits ------------------------------------------------------------------------------------
     ctx.clause = "3-loop-exit"
@@ -387,6 +388,74 @@ def guarded_get(repo, R, fk, funcs, flows, sites, fi, lf, node, call, what, held
         if ok and consumers == {fi.qual}:
             return True, f"idiom (b): all {len(callers)} callers test non-emptiness first and {fi.qual.rsplit('.', 1)[-1]} is the only consumer"
     return False, "the queue can be empty here"
+
+
+def wake_recheck(ctx, repo, R, fk, funcs, flows, rule="R-WAKE/recheck"):
+    """No lost wake-up at an untimed Event.wait(): on every path of the waiting function from a clear() of that event (its own,
+    or one made by a function it calls) to the wait(), the test of the flag-controlled loop around the wait is evaluated again.
+    `check; clear; wait` erases a set() made between the check and the clear, and the wait then never ends; `clear; check; wait`
+    (the clear belongs to the previous round) cannot lose one."""
+    def event_of(fi_, c, attr):
+        if isinstance(c.func, ast.Attribute) and c.func.attr == attr:
+            r = fk.resolve(fi_.cls, c.func.value)
+            if r is not None:
+                return f"{r[0]}.{r[1]}"
+        return None
+    # functions that (transitively) clear an event
+    clears = {}
+    for q, fi_ in funcs.items():
+        for c in fn_calls(fi_.node):
+            ev = event_of(fi_, c, "clear")
+            if ev:
+                clears.setdefault(q, set()).add(ev)
+    for _ in range(4):
+        changed = False
+        for q, fi_ in funcs.items():
+            lt = R.local_types(fi_)
+            for c in fn_calls(fi_.node):
+                for cal in R.resolve_call(fi_, c, lt)[0]:
+                    for ev in clears.get(cal.qual, ()):
+                        if ev not in clears.setdefault(q, set()):
+                            clears[q].add(ev)
+                            changed = True
+        if not changed:
+            break
+    n = 0
+    for q, lf in sorted(flows.items()):
+        fi = funcs[q]
+        lt = R.local_types(fi)
+        for nid, node in lf.cfg.nodes.items():
+            for kind, what, call in blocking_calls(fk, fi, node):
+                if kind != "event.wait" or what.split(".")[0] not in ("DiameterAssociation", "TcpConnection"):
+                    continue
+                loops_ = [w for w in walk_no_nested(fi.node) if isinstance(w, ast.While) and any(y is call for y in ast.walk(w))
+                          and test_flags(fk, fi, w.test)]
+                if not loops_:
+                    continue
+                tests = {t.id for t in lf.cfg.nodes.values() if t.kind == "test" and any(t.extra is w or t.ast is w.test for w in loops_)}
+
+                def clears_it(nd):
+                    for c in node_calls(nd):
+                        if event_of(fi, c, "clear") == what:
+                            return True
+                        if any(what in clears.get(cal.qual, ()) for cal in R.resolve_call(fi, c, lt)[0]):
+                            return True
+                    return False
+                cl_nodes = [nd for nd in lf.cfg.nodes.values() if clears_it(nd)]
+                n += 1
+                bad = None
+                for cn in cl_nodes:
+                    for t, l in lf.cfg.succ.get(cn.id, []):
+                        if l in ("exc",):
+                            continue
+                        if t == nid or not must_pass(lf.cfg, lambda x: x.id in tests, start=t, targets={nid}):
+                            bad = cn
+                ctx.decide(bad is None, rule, q, fi.where(call), f"every clear() of {what} is followed by a re-check of the loop condition before the wait",
+                           f"{what}.clear() ({fi.where(bad.ast) if bad is not None and isinstance(bad.ast, ast.AST) else ''}) can be followed by the "
+                           f"untimed {what}.wait() without the loop condition (stop flag / queue state) being evaluated in between: a set() that "
+                           f"lands between the last check and the clear() is erased and the waiter blocks forever (lost wake-up) - the last "
+                           f"message of a burst is never delivered and a close() does not release the caller", key=f"recheck:{what}")
+    return n
 
 
 def loop_flags(fk, fi, call):
